@@ -62,6 +62,19 @@ type Collector struct {
 	Floors   map[string][2]int // rule -> [found, floor]
 	Fatal    []string          // exit-2 conditions (anchor unresolved, control silent, floor)
 	ExpectedControls map[string]bool // rule -> must have a violated control obligation
+	bulk             map[string][2]int // rule -> [discharged, out-of-scope] counted without individual records
+}
+
+// Bulk counts obligations that were decided without keeping an individual record
+// (used for the thousands of store sites whose base is a fresh object).
+func (c *Collector) Bulk(rule string, discharged, outOfScope int) {
+	if c.bulk == nil {
+		c.bulk = map[string][2]int{}
+	}
+	b := c.bulk[rule]
+	b[0] += discharged
+	b[1] += outOfScope
+	c.bulk[rule] = b
 }
 
 func NewCollector(prop string) *Collector {
@@ -170,6 +183,12 @@ func (c *Collector) Finish(verifDir, tier string, seed int, wall time.Duration, 
 			}
 		}
 	}
+	for r, b := range c.bulk {
+		s := st(r)
+		s.Generated += b[0] + b[1]
+		s.Discharged += b[0]
+		s.OutOfScope += b[1]
+	}
 	for r := range c.ExpectedControls {
 		if !controlFired[r] {
 			c.Fatalf("positive control for rule %s did not fire (rule is not working)", r)
@@ -248,14 +267,14 @@ func (c *Collector) Finish(verifDir, tier string, seed int, wall time.Duration, 
 		s := stats[r]
 		fmt.Printf("rule %-28s generated=%d discharged=%d violated=%d out-of-scope=%d controls-fired=%d\n", r, s.Generated, s.Discharged, s.Violated, s.OutOfScope, s.Controls)
 	}
-	if len(c.Fatal) > 0 {
-		for _, f := range c.Fatal {
-			fmt.Printf("CHECK-ERROR property=%s %s\n", c.Property, f)
-		}
-		return 2
+	for _, f := range c.Fatal {
+		fmt.Printf("CHECK-ERROR property=%s %s\n", c.Property, f)
 	}
 	if nviol > 0 {
 		return 1
+	}
+	if len(c.Fatal) > 0 {
+		return 2
 	}
 	fmt.Printf("OK property=%s obligations=%d discharged=%d out-of-scope=%d known-findings=%d wall=%.1fs\n", c.Property, total, disch, oos, nknown, wall.Seconds())
 	return 0
